@@ -94,6 +94,19 @@ func execC05E2EInner(c c05Case) *ev.Failure {
 		if tr.IsOpen() {
 			return ev.Failf("adapter-still-open", "IsOpen() true after the close cause was published")
 		}
+		// the same transport reopened (the client's next connection) is unaffected by whatever
+		// the failed connection delivered, complete or not
+		if err := tr.Open(); err != nil {
+			return ev.Failf("adapter-reopen", "reopening the transport after the failed connection: %v", err)
+		}
+		ctx3 := frugal.NewFContext("").SetTimeout(5 * time.Second)
+		st.onFlush = func([]byte) { st.feed(validReply(c.Proto, opidOf(ctx3), "ok")) }
+		_, err3 := tr.Request(ctx3, refFrame([]byte("z")))
+		st.onFlush = nil
+		tr.Close()
+		if err3 != nil {
+			return ev.Failf("adapter-reopened-conn", "request on the reopened transport failed: %v (%s)", err3, c.Desc)
+		}
 		// a fresh connection is unaffected
 		st2 := newScriptT()
 		tr2 := frugal.NewAdapterTransport(st2)
